@@ -1552,3 +1552,154 @@ def c17_accessor(which, xx, nodata, window, dtype, nodata_from, groups=None):
                 if not (abs(float(res[i]) - exp) <= 1e-6 * max(1.0, abs(exp))):
                     return {"violates": True, "why": f"mean_grp dtype={dtype} nodata={nd}: cell {i} got {float(res[i])}, expected {exp}", "xx": vals}
     return {"violates": False}
+
+
+# ------------------------------------------------------------------ C12
+def _c12_call(driver, cube, nodata, p, extra):
+    if driver == "ws2doptvplc_tyx":
+        from hdc.algo.ops.ws2doptvplc import ws2doptvplc_tyx
+        zz, lo = ws2doptvplc_tyx(cube, p, nodata)
+        return np.concatenate([np.asarray(zz, dtype="float64"), np.asarray(lo, dtype="float64")[None, :, :]], axis=0), "tyx"
+    if driver == "autocorr_tyx":
+        from hdc.algo.ops.autocorr import autocorr_tyx
+        return np.asarray(autocorr_tyx(cube, nodata), dtype="float64")[None, :, :], "tyx"
+    if driver == "autocorr":
+        from hdc.algo.ops.autocorr import autocorr
+        return np.asarray(autocorr(cube, nodata), dtype="float64")[:, :, None], "yxt"
+    if driver == "gammastd_yxt":
+        from hdc.algo.ops.stats import gammastd_yxt
+        return np.asarray(gammastd_yxt(cube, nodata, extra.get("cal_start"), extra.get("cal_stop")), dtype="float64"), "yxt"
+    if driver == "mann_kendall_trend_yxt":
+        from hdc.algo.ops.stats import mann_kendall_trend_yxt
+        return np.asarray(mann_kendall_trend_yxt(cube), dtype="float64"), "yxt"
+    raise ValueError(driver)
+
+
+def _c12_pix(res, layout, r, c):
+    return res[:, r, c] if layout == "tyx" else res[r, c, :]
+
+
+def _c12_same(a, b):
+    a, b = np.asarray(a, dtype="float64"), np.asarray(b, dtype="float64")
+    return a.shape == b.shape and bool(np.all((a == b) | (np.isnan(a) & np.isnan(b))))
+
+
+def c12_driver(driver, layout, dtype, nt, nr, nc, pixels, nodata, p=None, extra=None, race=None):
+    """Joint run of the real driver vs the same driver on every pixel alone (bit-identical results expected); for the
+    parallel driver also 1 thread vs all threads on a cube tiled from the witness pixels plus seeded variations."""
+    extra = extra or {}
+    p = 0.9 if p is None else float(p)
+    px = {tuple(int(i) for i in k.split(",")): v for k, v in pixels.items()}
+
+    def build(pxmap, nr_, nc_):
+        if layout == "tyx":
+            cube = np.zeros((nt, nr_, nc_), dtype=dtype)
+            for (r, c), v in pxmap.items():
+                cube[:, r, c] = v
+        else:
+            cube = np.zeros((nr_, nc_, nt), dtype=dtype)
+            for (r, c), v in pxmap.items():
+                cube[r, c, :] = v
+        return cube
+    out = {"violates": False, "mismatches": []}
+    try:
+        joint, lay = _c12_call(driver, build(px, nr, nc), nodata, p, extra)
+        for (r, c), v in px.items():
+            alone, _ = _c12_call(driver, build({(0, 0): v}, 1, 1), nodata, p, extra)
+            if not _c12_same(_c12_pix(joint, lay, r, c), _c12_pix(alone, lay, 0, 0)):
+                out["violates"] = True
+                out["mismatches"].append({"pixel": [r, c], "joint": _c12_pix(joint, lay, r, c).tolist(), "alone": _c12_pix(alone, lay, 0, 0).tolist()})
+        # mirrored placement
+        mir = {(nr - 1 - r, nc - 1 - c): v for (r, c), v in px.items()}
+        jm, _ = _c12_call(driver, build(mir, nr, nc), nodata, p, extra)
+        for (r, c) in px:
+            if not _c12_same(_c12_pix(joint, lay, r, c), _c12_pix(jm, lay, nr - 1 - r, nc - 1 - c)):
+                out["violates"] = True
+                out["mismatches"].append({"pixel": [r, c], "mirrored": True})
+    except Exception as e:  # noqa
+        return {"violates": True, "raised": f"{type(e).__name__}: {e}"[:300]}
+    if driver == "ws2doptvplc_tyx":
+        import numba
+        rnd = np.random.default_rng(12)
+        T = max(nt, 24)
+        R, Cc = 96, 8
+        base = np.zeros((T, R, Cc), dtype=dtype)
+        wit = list(px.values())
+        for r in range(R):
+            for c in range(Cc):
+                s = np.resize(np.asarray(wit[(r * Cc + c) % len(wit)], dtype="int64"), T)
+                s = s + rnd.integers(0, 400, size=T) * (1 + (r % 7))
+                s = np.clip(s, -30000, 30000)
+                if (r + c) % 5 == 0:
+                    s[rnd.integers(0, T, size=3)] = nodata
+                base[:, r, c] = s
+        from hdc.algo.ops.ws2doptvplc import ws2doptvplc_tyx
+        nmax = numba.config.NUMBA_NUM_THREADS
+        numba.set_num_threads(1)
+        z1, l1 = ws2doptvplc_tyx(base, p, nodata)
+        rows = [ws2doptvplc_tyx(np.ascontiguousarray(base[:, r:r + 1, :]), p, nodata) for r in range(0, R, 13)]
+        for k, r in enumerate(range(0, R, 13)):
+            if not (_c12_same(rows[k][0][:, 0, :], z1[:, r, :]) and _c12_same(rows[k][1][0], l1[r])):
+                out["violates"] = True
+                out["mismatches"].append({"row_alone_differs": r})
+        numba.set_num_threads(nmax)
+        bad = 0
+        for rep in range(6):
+            zn, ln = ws2doptvplc_tyx(base, p, nodata)
+            if not (_c12_same(zn, z1) and _c12_same(ln, l1)):
+                bad += 1
+        out["threads"] = {"max": int(nmax), "runs_differing_from_single_thread": bad}
+        if bad:
+            out["violates"] = True
+    return out
+
+
+def c12_lazy(threads, schedule=None):
+    """Concurrent first use of a kernel wrapped by the real `lazycompile`: N threads, staggered starts, a slow compile step.
+    Every call must return f's result; nothing may raise. Also the real lazily compiled kernels, hit from N threads at once."""
+    import threading
+    import time
+    from hdc.algo.ops._helper import lazycompile
+    out = {"violates": False, "failures": []}
+    for stagger in (0.0, 0.02, 0.05, 0.12):
+        for n in sorted({2, int(threads), 4}):
+            compiled = []
+
+            def slow_decorator(f):
+                time.sleep(0.1)
+
+                def g(*a, **k):
+                    return ("compiled", f(*a, **k))
+                compiled.append(g)
+                return g
+
+            @lazycompile(slow_decorator)
+            def kern(x):
+                return x * 2 + 1
+            res = [None] * n
+
+            def run(i):
+                time.sleep(stagger * i)
+                try:
+                    res[i] = ("ok", kern(i))
+                except BaseException as e:  # noqa
+                    res[i] = ("raised", f"{type(e).__name__}: {e}"[:120])
+            th = [threading.Thread(target=run, args=(i,)) for i in range(n)]
+            for t in th:
+                t.start()
+            for t in th:
+                t.join()
+            for i, r in enumerate(res):
+                if r != ("ok", ("compiled", i * 2 + 1)):
+                    out["violates"] = True
+                    out["failures"].append({"threads": n, "stagger": stagger, "thread": i, "got": str(r)})
+            # second use after the race: still the compiled function
+            try:
+                r2 = kern(7)
+            except BaseException as e:  # noqa
+                r2 = f"{type(e).__name__}: {e}"[:120]
+            if r2 != ("compiled", 15):
+                out["violates"] = True
+                out["failures"].append({"threads": n, "stagger": stagger, "second_use": str(r2)})
+    out["failures"] = out["failures"][:6]
+    return out
